@@ -5,6 +5,7 @@ HERE = os.path.dirname(os.path.dirname(os.path.abspath(__file__)))
 pid, wt, out, n = sys.argv[1:5]
 round2 = len(sys.argv) > 5 and sys.argv[5] == 'r2'
 round3 = len(sys.argv) > 5 and sys.argv[5] == 'r3'
+round4 = len(sys.argv) > 5 and sys.argv[5] == 'r4'
 props = {json.loads(l)['id']: json.loads(l) for l in open(os.path.join(HERE, 'properties.jsonl'))}
 p = props[pid]
 t = open(os.path.join(HERE, 'tools', 'breaker_prompt.md')).read()
@@ -32,6 +33,30 @@ but legal container / value type, or one specific spelling in one of the three s
 (d) an optimisation that is valid for most inputs but wrong for a describable minority.
 Avoid: plain process-wide memo dictionaries, and changes any first use of the feature would expose. Each change must
 still be a clear violation of the property as stated (not of something the statement leaves open).
+
+YOUR TASK:''', 1)
+if round4:
+    t = t.replace('YOUR TASK:', '''NOTE: three earlier batches of seeded bugs for this property already covered (1) direct mutations of the functions
+most obviously tied to it, (2) caches and history effects, (3) cooperating sites, faults at one particular point,
+boundary values and optimisations that are wrong for a minority of inputs. This batch must come from a DIFFERENT
+DIRECTION. Each change should be one of:
+(a) a change in code that is NOT the obvious home of this property - a shared helper or a neighbouring feature
+(DT_Util: name_param / parse_params / Eval / add_with_prefix / sequence_ensure_subscription / SequenceFromIter;
+_DocumentTemplate: render_blocks_ / TemplateDict / InstanceDict / DictInstance / join_unicode / safe_callable;
+DT_String: __call__ / parse / parse_block / parse_close / _parseTag / varExtra / cook / __getstate__; the DT_HTML tag
+scanner; html_quote.py; ustr.py; security.py; DT_Let, DT_With, DT_Return, DT_Call, DT_Raise, DT_Try, DT_If; VSEval;
+TreeDisplay) - whose effect reaches this property only under describable conditions;
+(b) a plausible "modernisation / cleanup / typing / performance" pull request (str.partition or f-strings instead of
+regex or % formatting, comprehensions, truthiness test instead of `is None` or the reverse, narrowed or widened
+`except`, iterator instead of list, `==` vs `is`, default arguments, early returns, merged branches, sorted()/key=
+instead of cmp, dict.get/setdefault, getattr with default) that changes semantics for a describable minority of cases;
+(c) an interaction that the earlier batches did not use: entity syntax (&dtml-x; &dtml.mod-x;) vs tag syntax, the
+%(x)s syntax, sub-templates called by name vs from an expression (x(_.None, _)), objects with
+__render_with_namespace__ / isDocTemp / validate hooks, mapping vs attribute access, TaintedString values, bytes
+values, namespace callables vs plain values, guarded (restricted) vs unguarded template classes, nested blocks of the
+SAME tag, tags inside dtml-tree bodies, templates re-entered recursively.
+Avoid plain process-wide memo dictionaries and anything the simplest use of the feature would expose. Each change
+must still be a clear violation of the property as stated (not of something the statement leaves open).
 
 YOUR TASK:''', 1)
 print(t)
